@@ -587,7 +587,7 @@ package tengo
 //@   let consts = b.Constants
 //@   loop 0 assigns indexMap[*], fns[*], ints[*], strings[*], floats[*], chars[*], immutableMaps[*], deduped[*]
 //@   loop 0 invariant idx: 0 <= rangeindex+1 && rangeindex+1 <= len(consts)
-//@   loop 0 invariant fresh_store{C12}: cap(deduped) > 0 ==> freshloop(deduped) || (pre(cap(deduped)) > 0 && fresh(deduped) && samearray(deduped, pre(deduped)))
+//@   loop 0 invariant fresh_store{C12}: cap(deduped) > 0 ==> freshloop(deduped) || (pre(cap(deduped)) > 0 && fresh(deduped) && samestore(deduped, pre(deduped)))
 //@   loop 0 invariant mapped{C02,C12}: forall i in 0..rangeindex+1 :: haskey(indexMap, i) && 0 <= indexMap[i] && indexMap[i] < len(deduped)
 //@   loop 0 invariant same_kind{C12}: forall i in 0..rangeindex+1 :: tagof(deduped[indexMap[i]]) == tagof(old(consts[i]))
 //@   loop 0 invariant fns_rng{C02,C12}: forall k *CompiledFunction :: haskey(fns, k) ==> 0 <= fns[k] && fns[k] < len(deduped) && deduped[fns[k]] == k
